@@ -44,7 +44,7 @@ theorem C08_defined (op : String) (hop : op ∈ allOps) (c : Ctx) (x y : Dec) (i
   case _ => obtain ⟨o, h1, _⟩ := C08_exp c x y e h; simp [runCtxOp, h1]
   case _ => obtain ⟨o, h1, _⟩ := C08_log c x y e true (by simpa using h); simp [runCtxOp, h1]
   case _ => obtain ⟨o, h1, _⟩ := C08_log c x y e false (by simpa using h); simp [runCtxOp, h1]
-  case _ => obtain ⟨o, h1, _⟩ := C08_pow c x y e h; simp [runCtxOp, h1]
+  case _ => obtain ⟨o, h1, _⟩ := C08_pow c x y e h; simp [runCtxOp, powIntOp_of_specials h1]
 
 /-- … and decides it as prescribed: result form, sign, and InvalidOperation / DivisionByZero /
 DivisionUndefined exactly as the table says, no Inexact/Overflow/Underflow/DivisionImpossible.
@@ -91,7 +91,7 @@ theorem C08_specials (op : String) (hop : op ∈ allOps) (c : Ctx) (x y : Dec) (
     simp [runCtxOp, h1] at ho; subst ho; exact h2
   case _ =>
     obtain ⟨o', h1, h2⟩ := C08_pow c x y e h
-    simp [runCtxOp, h1] at ho; subst ho; exact h2
+    simp [runCtxOp, powIntOp_of_specials h1] at ho; subst ho; exact h2
 
 /-- a signalling NaN operand always raises InvalidOperation and yields a quiet NaN -/
 theorem C08_snan (op : String) (hop : op ∈ allOps) (c : Ctx) (x y : Dec) (i : Int) (o : Out)
@@ -105,7 +105,7 @@ theorem C08_snan (op : String) (hop : op ∈ allOps) (c : Ctx) (x y : Dec) (i : 
   all_goals
     simp [runCtxOp, addOp, mulOp, quoOp, quoIntegerOp, quoSpecials, remOp, absOp, negOp, roundOp, reduceOp, cmpOp,
       quantizeOp, roundToIntegralExactOp, roundToIntegralValueOp, ceilOp, floorOp, toIntegralSpecials, sqrtOp, cbrtOp,
-      rootSpecials, expSpecials, logSpecials, powSpecials, shouldSetAsNaN, setAsNaN, Dec.isNaN] at ho
+      rootSpecials, expSpecials, logSpecials, powIntOp, powSpecials, shouldSetAsNaN, setAsNaN, Dec.isNaN] at ho
     subst ho
     simp [Cond.cInvalidOp]
 
